@@ -25,23 +25,29 @@ def tla_cfg(c):
 
 
 def build_cfgs(seed, n):
+    """n configurations: first one of every kind of constraint (so that even a short list exercises each of them), then the
+    remaining single-constraint configurations interleaved with random combinations"""
     rng = random.Random(seed)
-    out = [cfg()]
+    head = [cfg(), cfg(minOcc=2), cfg(maxOcc=1), cfg(minDocOcc=2), cfg(maxDocOcc=1), cfg(minFreq=(1, 3)), cfg(maxFreq=(1, 2)),
+            cfg(minDocFreq=(1, 2)), cfg(maxDocFreq=(1, 2)), cfg(excluded=(0,)), cfg(regexHit=(0,)), cfg(maxUnique=1), cfg(maxUnique=2),
+            cfg(maxUnique=2, excluded=(1,)), cfg(maxUnique=1, minOcc=2), cfg(maxUnique=2, maxDocOcc=1), cfg(maxUnique=3)]
+    single = []
     for k in range(0, 5):
-        out.append(cfg(minOcc=k))
-        out.append(cfg(maxOcc=k + 1))
+        single.append(cfg(minOcc=k))
+        single.append(cfg(maxOcc=k + 1))
     for k in range(0, 4):
-        out.append(cfg(minDocOcc=k))
-        out.append(cfg(maxDocOcc=k + 1))
+        single.append(cfg(minDocOcc=k))
+        single.append(cfg(maxDocOcc=k + 1))
     for f in [(1, 2), (1, 3), (2, 3), (1, 4), (1, 5), (2, 5)]:
-        out += [cfg(minFreq=f), cfg(maxFreq=f), cfg(minDocFreq=f), cfg(maxDocFreq=f)]
+        single += [cfg(minFreq=f), cfg(maxFreq=f), cfg(minDocFreq=f), cfg(maxDocFreq=f)]
     for ex in [(0,), (1,), (0, 2)]:
-        out.append(cfg(excluded=ex))
+        single.append(cfg(excluded=ex))
     for rh in [(0,), (0, 1)]:
-        out.append(cfg(regexHit=rh))
-    for k in (1, 2):
-        out.append(cfg(maxUnique=k))
-    while len(out) < n:
+        single.append(cfg(regexHit=rh))
+    single = [c for c in single if c not in head]
+    rng.shuffle(single)
+    combos = []
+    while len(combos) < n:
         c = {}
         if rng.random() < 0.5:
             c[rng.choice(["minOcc", "maxOcc"])] = rng.randint(1, 3)
@@ -57,7 +63,15 @@ def build_cfgs(seed, n):
             c["regexHit"] = rng.choice([(0,), (0, 1)])
         if rng.random() < 0.4:
             c["maxUnique"] = rng.randint(1, 2)
-        out.append(cfg(**c))
+        combos.append(cfg(**c))
+    out = list(head)
+    k = 0
+    while len(out) < n:
+        if k % 2 == 0 and single:
+            out.append(single.pop())
+        else:
+            out.append(combos.pop())
+        k += 1
     return out[:n]
 
 
